@@ -481,7 +481,7 @@ m('C04', 'count_every_survivor_of_filtermap', 'src/core/filtermap_fil_cnt.rs', "
                                 let x = maybe.value();
                                 let _ = filter(&x);
                                 acc += 1;
-                            }""", 'C04-THREAD')
+                            }""", 'C05-FEED')
 m('C04', 'run_map_last_handle_dropped', 'src/core/runner.rs', """            handles.push(s.spawn(move || thread_task(chunk)));
             num_spawned += 1;
 
